@@ -81,11 +81,35 @@ def coq_make():
         open(keyf, 'w').write(key)
     rc, out, err = sh(['timeout', '3000', 'make', '-k', '-j16'], cwd=COQ, timeout=3100)
     log = out + err
+    # failed targets, and everything that depends on them, are not built (a stale .vo may remain)
+    failed = set(re.findall(r'\*\*\* \[Makefile[^\]]*: ([^\]]+\.vo)\] Error', log))
+    deps = {}
+    try:
+        for line in open(os.path.join(COQ, '.Makefile.d'), encoding='utf-8'):
+            if ':' not in line:
+                continue
+            lhs, rhs = line.split(':', 1)
+            tg = [t for t in lhs.split() if t.endswith('.vo')]
+            ds = [t for t in rhs.split() if t.endswith('.vo')]
+            for t in tg:
+                deps[t] = ds
+    except FileNotFoundError:
+        pass
+    changed = True
+    while changed:
+        changed = False
+        for t, ds in deps.items():
+            if t not in failed and any(d in failed for d in ds):
+                failed.add(t); changed = True
     built = {}
     for rel in srcs:
-        vo = os.path.join(COQ, rel[:-2] + '.vo')
+        vo_rel = rel[:-2] + '.vo'
+        vo = os.path.join(COQ, vo_rel)
         v = os.path.join(COQ, rel)
-        built[rel] = os.path.exists(vo) and os.path.getmtime(vo) >= os.path.getmtime(v)
+        ok = os.path.exists(vo) and os.path.getmtime(vo) >= os.path.getmtime(v) and vo_rel not in failed
+        if vo_rel in failed and os.path.exists(vo):
+            os.remove(vo)
+        built[rel] = ok
     return rc == 0, built, log
 
 def build_driver():
